@@ -64,6 +64,17 @@ type Spec struct {
 	// C11: maintenance schedules run on every recovered image.
 	PostDepth int
 	PostCrash bool // include "crash" (second crash+reopen) in the schedules
+	PostPut   bool // include one client write of the fresh key PostKey (value-log sized: seals the active value-log file so that GC can scan it)
+}
+
+// PostKey is the fresh key written by the "put" step of a C11 schedule.
+const PostKey = "z"
+
+func (s *Spec) readKeys() []string {
+	if s.PostPut {
+		return append(s.Keys(), PostKey)
+	}
+	return s.Keys()
 }
 
 func (s *Spec) Keys() []string {
@@ -299,7 +310,7 @@ func (s *Spec) ReadState(h *dbh.H) (st *State) {
 		}
 	}()
 	db := h.DB
-	for _, k := range s.Keys() {
+	for _, k := range s.readKeys() {
 		var kr KeyRead
 		if s.Mode == "plain" {
 			e, err := db.Get([]byte(k))
@@ -616,6 +627,9 @@ func (r *Runner) RunNode(path []string) (res *NodeResult, err error) {
 		if op == "reopen" && merr == nil {
 			waitStats(epoch)
 		}
+		if os.Getenv("VERIF_CRASHDB_VERBOSE") != "" {
+			fmt.Fprintf(os.Stderr, "MAINT %s -> changed=%v err=%v\n", op, changed, merr)
+		}
 		if merr != nil {
 			var ie *dbh.ImplError
 			if !errors.As(merr, &ie) {
@@ -707,7 +721,8 @@ func Distinct(cs []Cand, skipHash string) []Cand {
 		}
 		if i, ok := idx[c.Img.Hash]; ok {
 			if c.Acked > out[i].Acked {
-				out[i].Acked = c.Acked
+				// the instant with the stricter bound names the crash point
+				out[i].Acked, out[i].Class, out[i].Desc, out[i].Kind = c.Acked, c.Class, c.Desc, c.Kind
 			}
 			if c.Accepted < out[i].Accepted {
 				out[i].Accepted = c.Accepted
